@@ -19,17 +19,21 @@ import (
 	"errors"
 	"fmt"
 	"io"
+	"net"
 	"net/netip"
+	"os"
 	"sort"
 	"strings"
 	"sync"
 	"sync/atomic"
+	"syscall"
 	"testing"
 	"testing/synctest"
 	"time"
 
 	"github.com/cilium/ebpf"
 	"github.com/daeuniverse/dae/common/consts"
+	commonerrors "github.com/daeuniverse/dae/common/errors"
 	ob "github.com/daeuniverse/dae/component/outbound"
 	componentdialer "github.com/daeuniverse/dae/component/outbound/dialer"
 	"github.com/daeuniverse/outbound/netproxy"
@@ -91,6 +95,7 @@ type c13Underlay struct {
 	tch   chan struct{} // current transport of this dialer (nil: none)
 	plain     bool           // the next dial yields a conn that is not a PacketConn
 	lastPlain *c13PlainConn
+	errs      []error // scripted errors of the next dials over this underlay (consumed one per dial)
 }
 
 // a transport that can not carry datagrams (netproxy.Conn, but not a PacketConn)
@@ -108,9 +113,16 @@ func (d *c13Underlay) DialContext(context.Context, string, string) (netproxy.Con
 	d.dials++
 	fail := d.fail
 	gate := d.gate
+	var scripted error
+	if len(d.errs) > 0 {
+		scripted, d.errs = d.errs[0], d.errs[1:]
+	}
 	d.mu.Unlock()
 	if gate != nil {
 		gate()
+	}
+	if scripted != nil {
+		return nil, scripted
 	}
 	if fail {
 		return nil, errors.New("c13: dial failed")
@@ -361,14 +373,56 @@ func c13OptTok(i int) string {
 	return fmt.Sprint(i)
 }
 
+// c13DialErr: the error classes createEndpointLocked tells apart
+func c13DialErr(kind string) error {
+	switch kind {
+	case "unreach": // shouldForceMarkUnavailableOnProxyDialError: a second selection + dial inside the same call
+		return fmt.Errorf("c13 dial: %w", commonerrors.ErrNetworkUnreachable)
+	case "transient": // isTransientLocalUdpDialCreateError: neither reported nor remembered
+		return &net.OpError{Op: "dial", Net: "udp", Err: os.NewSyscallError("bind", syscall.EADDRINUSE)}
+	case "gen":
+		return errors.New("c13: dial failed")
+	}
+	return nil
+}
+
+// outcome: ok | gen | noalive | notpkt | transient | unreach+noalive | unreach+<ok|gen|unreach|transient><d2>
 func (e *c13EpEnv) gocCall(k int, sym bool, natMs int, owner, drain, d int, outcome string) (*UdpEndpoint, bool, error) {
+	second, d2 := "", d
+	if strings.HasPrefix(outcome, "unreach+") {
+		second = strings.TrimPrefix(outcome, "unreach+")
+		if second != "noalive" {
+			d2 = int(second[len(second)-1] - '0')
+			second = second[:len(second)-1]
+		}
+	}
 	for i, u := range e.under {
 		u.mu.Lock()
 		u.fail = outcome == "gen" && i == d
 		u.plain = outcome == "notpkt" && i == d
 		u.lastPlain = nil
+		u.errs = nil
+		if outcome == "transient" && i == d {
+			u.errs = []error{c13DialErr("transient")}
+		}
+		if second != "" {
+			if i == d {
+				u.errs = append(u.errs, c13DialErr("unreach"))
+			}
+			if i == d2 && second != "noalive" && second != "ok" {
+				u.errs = append(u.errs, c13DialErr(second))
+			}
+		}
 		u.mu.Unlock()
 	}
+	selections := 0
+	defer func() {
+		for _, u := range e.under {
+			u.mu.Lock()
+			u.errs = nil
+			u.mu.Unlock()
+		}
+	}()
 	opts := &UdpEndpointOptions{
 		Ctx: context.Background(),
 		Handler: func(ue *UdpEndpoint, data []byte, from netip.AddrPort) error {
@@ -382,8 +436,12 @@ func (e *c13EpEnv) gocCall(k int, sym bool, natMs int, owner, drain, d int, outc
 		},
 		NatTimeout: time.Duration(natMs) * time.Millisecond,
 		GetDialOption: func(ctx context.Context) (*DialOption, error) {
-			if outcome == "noalive" {
+			selections++
+			if outcome == "noalive" || (selections > 1 && second == "noalive") {
 				return nil, ob.ErrNoAliveDialer
+			}
+			if selections > 1 {
+				return &DialOption{Target: c13Target, Dialer: e.dialers[d2], Network: "udp"}, nil
 			}
 			return &DialOption{Target: c13Target, Dialer: e.dialers[d], Network: "udp"}, nil
 		},
@@ -935,6 +993,22 @@ func c13RunEpSeq(t *testing.T, s *VStream, stats *VStats, r *VRand) {
 					outcome = "noalive"
 				case x == 2 && rng.Chance(0.5):
 					outcome = "notpkt"
+				case x == 3 && rng.Chance(0.5):
+					outcome = "transient"
+				case x == 4:
+					// the first dial finds the network unreachable: createEndpointLocked selects and dials again
+					switch y := rng.Intn(6); {
+					case y < 2:
+						outcome = fmt.Sprintf("unreach+ok%d", rng.Intn(2))
+					case y == 2:
+						outcome = fmt.Sprintf("unreach+gen%d", rng.Intn(2))
+					case y == 3:
+						outcome = fmt.Sprintf("unreach+unreach%d", rng.Intn(2))
+					case y == 4:
+						outcome = fmt.Sprintf("unreach+transient%d", rng.Intn(2))
+					default:
+						outcome = "unreach+noalive"
+					}
 				}
 				nat := nats[rng.Intn(len(nats))]
 				res, _ := e.goc(k, symOf[k], nat, owner, drain, d, outcome)
@@ -951,6 +1025,12 @@ func c13RunEpSeq(t *testing.T, s *VStream, stats *VStats, r *VRand) {
 					}
 				}
 				stats.Inc("ep.goc." + strings.Fields(res)[0])
+				if strings.HasPrefix(outcome, "unreach+") {
+					stats.Inc("ep.goc.secondDialInCall." + strings.Fields(res)[0])
+				}
+				if outcome == "transient" {
+					stats.Inc("ep.goc.transientLocalError." + strings.Fields(res)[0])
+				}
 				emit(fmt.Sprintf("ep goc %d %s %d %s %s %d %s", k, c13B(symOf[k]), nat, c13OptTok(owner), c13OptTok(drain), d, outcome), res)
 			case c < 38:
 				k := rng.Intn(6)
